@@ -31,9 +31,12 @@ BAD_DOCS = [b'{"a": ', b'{"a": "\xff\xfe"}', b'']
 PATH_EXPRS = [("$.a[0]", None), ("$..b", None), ("$[?@.b == 'x']", None), ("$.a[?@ > 1]", None), ("$", None), ("$.s", None),
               ("$.a[", "JSONPathSyntaxError"), ("$[?@.a.* == 1]", "JSONPathTypeError"), ("$[?nosuch(@)]", "JSONPathNameError"),
               ("$[9007199254740992]", "JSONPathIndexError"), ("$[?length(@.a) && @.b]", "JSONPathTypeError"), ("$[?@ =~ /(/]", "JSONPathSyntaxError"),
-              ("$['\\u00e9']", None), ("", None)]
+              ("$['\\u00e9']", None), ("", None),
+              # queries spread over several lines (blank space may be a line feed), a blank first line
+              ("$.a\n  [2]\n  .b", None), ("\n$.a[0]", None), ("$[?@.b\n == 'x']", None), ("$.a[0,\n1]", None), ("$.a\n[", "JSONPathSyntaxError")]
 POINTERS = [("/a/0", None), ("/a/2/b", None), ("", None), ("/s", None), ("/a/9", "JSONPointerIndexError"), ("/zz", "JSONPointerKeyError"),
-            ("/s/0", "JSONPointerTypeError"), ("a", "JSONPointerError"), ("/a/-", "JSONPointerIndexError"), ("/%61", None), ("/\\u0061", None)]
+            ("/s/0", "JSONPointerTypeError"), ("a", "JSONPointerError"), ("/a/-", "JSONPointerIndexError"), ("/%61", None), ("/\\u0061", None),
+            ("/a\n/0", "JSONPointerKeyError"), ("\n/a/0", None)]
 PATCHES = [([{"op": "add", "path": "/z", "value": 1}], None), ([{"op": "remove", "path": "/a/0"}], None), ([], None),
            ([{"op": "test", "path": "/t", "value": True}, {"op": "replace", "path": "/n", "value": [1]}], None),
            ([{"op": "test", "path": "/t", "value": 1}], "JSONPatchTestFailure"), ([{"op": "remove", "path": "/zz"}], "JSONPatchError"),
